@@ -90,7 +90,10 @@ func GenFields(r *rand.Rand, form string, marker string) string {
 
 // GenMeta makes a metadata token: mostly fresh, sometimes with absolute expiry in the past / future,
 // relative expiry, or a deletion timestamp.
-func GenMeta(r *rand.Rand, flags bool) string {
+func GenMeta(r *rand.Rand, flags bool) string { return GenMetaX(r, flags, false, false) }
+
+// GenMetaX: noRel suppresses relative expiry (Deleted < 0), noExp every expiry.
+func GenMetaX(r *rand.Rand, flags, noRel, noExp bool) string {
 	c, m, e, d := "0", "0", "0", "0"
 	switch r.Intn(12) {
 	case 0:
@@ -119,6 +122,12 @@ func GenMeta(r *rand.Rand, flags bool) string {
 		d = "-3600"
 	case 4:
 		d = "-100"
+	}
+	if (noRel || noExp) && d[0] == '-' {
+		d = "0"
+	}
+	if noExp {
+		e = "0"
 	}
 	s, j := "0", "0"
 	if flags {
